@@ -291,7 +291,10 @@ def run(run, tier, loadcfg):
     run.assumptions = ['|sin| <= 1 (library)', 'f64 `%` of a non-negative finite dividend by rem > 0 lies in [0, rem)', 'long-run floating-point drift of the phase is not decided',
                        'frequency / rate are finite and non-negative (the statement\'s domain)']
     for cfg in ['std-debug'] + (['nostd'] if tier == 'thorough' else []):
-        cx = Ctx(loadcfg(cfg))
+        fx_ = loadcfg(cfg, optional=(cfg == 'nostd'))
+        if fx_ is None:
+            continue
+        cx = Ctx(fx_)
         check_phase(run, cx, cfg)
         check_waveforms(run, cx, cfg)
         check_noise(run, cx, cfg)
